@@ -7,3 +7,8 @@ mkdir -p build
 cat > build/overlay.json <<JSON
 {"Replace": {"/repo/errbase/zz_verif_hooks.go": "$PWD/mc/hooks/errbase_hooks.go"}}
 JSON
+# C18 (schedmc): instrumented copy of /repo's working tree under build/instr
+# plus build/overlay-sched.json and build/overlay-race.json. The C18 pre-step
+# regenerates them again in-process on every check run; this keeps them fresh
+# for manual builds. Never fatal for the other checks.
+if [ -x build/mc-instr ]; then build/mc-instr || echo "mkoverlay: instrumenter failed (only C18 is affected)" >&2; fi
